@@ -11,13 +11,18 @@ class Mode(enum.IntEnum):
     W = 2
 
 
+class UInt(int):
+    """an int that cannot be hashed"""
+    __hash__ = None
+
+
 # classes: 1 object, 2 Collection, 3 Sequence, 4 Mapping, 5 int, 6 bool, 7 str, 8 tuple, 9 list, 10 dict, 11 float, 12 NoneType,
-# 13 Mode (an IntEnum)
-PARENTS = [[], [1], [2], [2], [1], [5], [3], [3], [3], [4], [1], [1], [5]]
+# 13 Mode (an IntEnum), 14 UInt (an unhashable int)
+PARENTS = [[], [1], [2], [2], [1], [5], [3], [3], [3], [4], [1], [1], [5], [5]]
 CLS = {"object": 1, "Collection": 2, "Sequence": 3, "Mapping": 4, "int": 5, "bool": 6, "str": 7, "tuple": 8,
-       "list": 9, "dict": 10, "float": 11, "NoneType": 12, "Mode": 13}
+       "list": 9, "dict": 10, "float": 11, "NoneType": 12, "Mode": 13, "UInt": 14}
 PYCLS = {1: object, 2: Collection, 3: Sequence, 4: Mapping, 5: int, 6: bool, 7: str, 8: tuple, 9: list, 10: dict,
-         11: float, 12: type(None), 13: Mode}
+         11: float, 12: type(None), 13: Mode, 14: UInt}
 
 
 def cls(name):
@@ -51,7 +56,7 @@ def arg(v, name=""):
 
 
 CORPUS = [
-    0, 1, 2, -1, True, 1.5, 0.0, 1.0, float("inf"), Mode.R, Mode.W, None, "", "a", "ab", "b", "ba", "abab",
+    0, 1, 2, -1, True, 1.5, 0.0, 1.0, float("inf"), Mode.R, Mode.W, UInt(7), UInt(0), None, "", "a", "ab", "b", "ba", "abab",
     (), (1,), (1, "a"), ("a", 1), (1, 2), (True, "a"), ("a",), (1, "a", 2),
     [], [1], ["a"], [1, "a"], ["a", 1],
     {}, {"a": 1}, {"b": "x"}, {1: "a"}, {"a": "x", "b": 2},
@@ -90,6 +95,10 @@ def types(big=False):
     u_ab = {"k": "union", "args": [sw, swb], "py": ["or", sw["py"], swb["py"]]}
     T.append({"k": "inter", "args": [ewa, u_ab], "py": ["and", ewa["py"], u_ab["py"]]})
     T.append({"k": "inter", "args": [u_ab, ewa], "py": ["and", u_ab["py"], ewa["py"]]})
+    # a static (class-level) type next to a value-dependent one in a union
+    exi = {"k": "exactly", "c": CLS["int"], "py": ["exactly", "int"]}
+    T.append({"k": "union", "args": [exi, sw], "py": ["or", exi["py"], sw["py"]]})
+    T.append({"k": "union", "args": [sw, exi], "py": ["or", sw["py"], exi["py"]]})
     # literal values that are not plain int / float / str objects (judged against isinstance only)
     T.append({"k": "opaque", "py": ["litenum", "R"]})
     T.append({"k": "opaque", "py": ["litenum2"]})
@@ -125,6 +134,10 @@ def real(py):
     k = py[0]
     if k == "lit":
         return typing.Literal[tuple(py[1])]
+    if k == "exactly":
+        from ovld.types import Exactly
+
+        return Exactly[{"int": int, "str": str}[py[1]]]
     if k == "litenum":
         return typing.Literal[Mode[py[1]]]
     if k == "litenum2":
